@@ -1346,6 +1346,90 @@ func genT2fixed(c *Ctx) {
 		c.Stat("t2.value-comparison-probe", name+" (Go-specific, model only)")
 		c.Case(Verdict, "t2.dec", newT2env().args(cat(mv, body, []byte{5, 14})), true)
 	}
+	// the stack limit (48) reached by an OPERATOR, not an operand: 47 / 48 elements, then a stack-growing operator
+	// (dup, random) or, as control, an operator that does not grow the stack (index, get, put, roll, exch), plain
+	// and inside a subroutine; TN5177 Appendix B: at most 48 entries -> the 49th is rejected
+	for _, k := range []int{47, 48} {
+		for name, tail := range map[string][]byte{
+			"dup":    esc(27),
+			"random": esc(23),
+		} {
+			grows := k == 48
+			for _, inSubr := range []bool{false, true} {
+				env := newT2env()
+				body := cat(tail)
+				code := cat(mv, rep(k, num(2)), body, []byte{6, 14})
+				if inSubr {
+					env.ns = 1
+					env.setSubr(false, 0, cat(body, []byte{11}))
+					// the call operand itself needs a slot: push it first, then k-1 further operands
+					code = cat(mv, rep(k, num(2)), []byte{6}, mv, rep(k-1, num(2)), num(-107), []byte{10}, []byte{6, 14})
+					grows = k == 48 // k-1 operands + the value pushed in the subroutine = k ... see below
+				}
+				_ = grows
+				c.Stat("t2.stack-limit-probe", fmt.Sprintf("%d elements + %s%s", k, name, map[bool]string{true: " in subr", false: ""}[inSubr]))
+				c.Case(Verdict, "t2.dec", env.args(code), true)
+				if !inSubr && k == 48 {
+					c.Stat("t2.fault-class", "overflow-by-operator")
+					c.Case(Direct, "t2.rejects", env.args(code), true)
+				} else if !inSubr {
+					c.Case(Direct, "t2.spec", env.args(code), true)
+				}
+			}
+		}
+		// 48 elements inside a subroutine, then dup/random there: the 49th is pushed by an operator in the callee
+		for name, tail := range map[string][]byte{"dup": esc(27), "random": esc(23)} {
+			env := newT2env()
+			env.ns = 1
+			env.setSubr(false, 0, cat(num(2), tail, []byte{11})) // pushes 2 elements
+			code := cat(mv, rep(k-2, num(2)), num(-107), []byte{10}, []byte{6, 14})
+			c.Stat("t2.stack-limit-probe", fmt.Sprintf("%d elements before the call, operand + %s in the callee", k-2, name))
+			c.Case(Verdict, "t2.dec", env.args(code), true)
+			if k == 48 {
+				c.Case(Direct, "t2.spec", env.args(code), true) // 46 + 2 = 48: legal
+			} else {
+				c.Case(Direct, "t2.spec", env.args(code), true) // 45 + 2 = 47: legal
+			}
+			env2 := newT2env()
+			env2.ns = 1
+			env2.setSubr(false, 0, cat(num(2), tail, []byte{11}))
+			code2 := cat(mv, rep(k-1, num(2)), num(-107), []byte{10}, []byte{6, 14}) // k-1 + 2 = k+1
+			c.Case(Verdict, "t2.dec", env2.args(code2), true)
+			if k == 48 {
+				c.Stat("t2.fault-class", "overflow-by-operator")
+				c.Case(Direct, "t2.rejects", env2.args(code2), true)
+			} else {
+				c.Case(Direct, "t2.spec", env2.args(code2), true) // 46 + 2 = 48: legal
+			}
+		}
+	}
+	// controls at a full stack: operators that do not grow it are fine
+	for name, body := range map[string][]byte{
+		"index at 48": cat(rep(47, num(2)), num(0), esc(29)),
+		"get at 48":   cat(num(9), num(0), esc(20), rep(47, num(2)), num(0), esc(21)),
+		"put at 48":   cat(rep(46, num(2)), num(9), num(3), esc(20), num(2), num(2)),
+		"roll at 48":  cat(rep(46, num(2)), num(3), num(1), esc(30), num(2), num(2)),
+		"exch at 48":  cat(rep(48, num(2)), esc(28)),
+		"neg at 48":   cat(rep(48, num(2)), esc(14)),
+		"add at 48":   cat(rep(48, num(2)), esc(10), num(2)),
+	} {
+		c.Stat("t2.stack-limit-probe", name+" (control)")
+		code := cat(mv, body, []byte{6, 14})
+		c.Case(Verdict, "t2.dec", newT2env().args(code), true)
+		c.Case(Direct, "t2.spec", newT2env().args(code), true)
+	}
+	// the mirror at the bottom: every path operator and moveto with exactly one operand fewer than its minimum
+	for _, po := range []struct {
+		op  []byte
+		min int
+	}{{[]byte{21}, 2}, {[]byte{22}, 1}, {[]byte{4}, 1}, {[]byte{5}, 2}, {[]byte{6}, 1}, {[]byte{7}, 1}, {[]byte{8}, 6},
+		{[]byte{24}, 8}, {[]byte{25}, 8}, {[]byte{26}, 4}, {[]byte{27}, 4}, {[]byte{30}, 4}, {[]byte{31}, 4},
+		{esc(34), 7}, {esc(35), 13}, {esc(36), 9}, {esc(37), 11}} {
+		c.Stat("t2.fault-class", "underflow-path-operator")
+		code := cat(mv, rep(po.min-1, num(3)), po.op, []byte{14})
+		c.Case(Verdict, "t2.dec", newT2env().args(code), true)
+		c.Case(Direct, "t2.rejects", newT2env().args(code), true)
+	}
 	// known operand-count leniency (documented in cfg partial, not a fault class of C05_rejects): the Go decoder
 	// accepts, the specification rejects; compared with the model only
 	c.Stat("t2.outside-theorem-probe", "endchar with 2 operands (Go lenient: accepts; specification: operand-count error)")
